@@ -3,6 +3,7 @@ package harness
 import (
 	"fmt"
 	"math/big"
+	"sort"
 	"strings"
 
 	"github.com/consensys/gnark/constraint/solver"
@@ -247,7 +248,12 @@ func emuCase[T emulated.FieldParams](fname, chain string) *gcase {
 // classifyEmulated says whether the accepted wrong answer relies on carries of a
 // multiplication check that are far outside what an honest computation produces.
 func classifyEmulated(honest, faulted []hintCall, planned map[int]bool, q *big.Int) string {
-	for idx := range planned {
+	// planned is a Go map: visit it in a fixed order and prefer the most specific finding, so
+	// that the key of a violation never depends on map iteration order
+	idxs := sortedKeys(planned)
+	other := "?"
+	inRange := ""
+	for _, idx := range idxs {
 		if idx >= len(faulted) {
 			continue
 		}
@@ -268,24 +274,48 @@ func classifyEmulated(honest, faulted []hintCall, planned map[int]bool, q *big.I
 			nbBits = int(c.In[0].Int64())
 			ncarry = int(c.In[5].Int64())
 		default:
-			return short
+			if other == "?" {
+				other = short
+			}
+			continue
 		}
 		if ncarry <= 0 || ncarry > len(c.Out) {
-			return short
+			if other == "?" {
+				other = short
+			}
+			continue
 		}
 		bound := 2*nbBits + 24
+		wide := false
 		for _, x := range c.Out[len(c.Out)-ncarry:] {
 			if x == nil {
 				continue
 			}
 			neg := new(big.Int).Sub(q, x)
 			if x.BitLen() > bound && neg.BitLen() > bound {
-				return short + ":carry-out-of-range"
+				wide = true
 			}
 		}
-		return short + ":carries-in-range"
+		if wide {
+			return short + ":carry-out-of-range"
+		}
+		if inRange == "" {
+			inRange = short + ":carries-in-range"
+		}
 	}
-	return "?"
+	if inRange != "" {
+		return inRange
+	}
+	return other
+}
+
+func sortedKeys(m map[int]bool) []int {
+	var l []int
+	for k := range m {
+		l = append(l, k)
+	}
+	sort.Ints(l)
+	return l
 }
 
 var emuChains = []string{"mul", "muladdsub", "div", "inverse", "sqrt", "long", "select", "bits", "leq", "neg", "exp", "equal", "short"}
